@@ -245,6 +245,31 @@ func TestC17(t *testing.T) {
 			}
 		})
 	}
+	// the terminator pieces of all the other constructs inside each construct: a scanner that starts to honour
+	// another construct's bracket (quotes, [ ], --, %>, ?>) inside this one ends the token somewhere else
+	cross := []string{">", "]", "[", "-", "%", "?", "!", "'", "\"", "`", "<", "a", " ", "/", "="}
+	Lx := pick(4, 5)
+	for k, hc := range h5Constructs {
+		k := k
+		p = c.rec.NewPart("term_cross_"+hc.name, fmt.Sprintf("every body of length 0..%d over the union of the structural bytes of all constructs %q", Lx, cross), false, true, "")
+		c.EnumSeq(p, cross, "", 0, Lx, func(w *Worker, s string) {
+			w.Judge(ev.Case{Kind: "term", N: k, In: s})
+		})
+	}
+	// the same with paired brackets pre-formed: [..]> (..)> {..}> "..."> '...'> <..>> around a '>' decoy
+	var brk []string
+	for _, b := range [][2]string{{"[", "]"}, {"(", ")"}, {"{", "}"}, {"\"", "\""}, {"'", "'"}, {"`", "`"}, {"<", ">"}, {"<!--", "-->"}, {"<![CDATA[", "]]>"}, {"<?", "?>"}, {"<%", "%>"}, {"/*", "*/"}} {
+		for _, in := range []string{">", "a>b", "<!ENTITY x \"y\">", "%>", "]]>", "-->", "'", "\""} {
+			for _, pre := range []string{"", " ", " svg ", "a"} {
+				brk = append(brk, pre+b[0]+in+b[1]+">x", pre+b[0]+in+b[1]+"x", pre+b[0]+in+b[1]+b[1]+">")
+			}
+		}
+	}
+	for k := range h5Constructs {
+		k := k
+		p = c.rec.NewPart("term_brackets_"+h5Constructs[k].name, fmt.Sprintf("%d bodies in which a decoy terminator sits inside a pair of brackets, quotes or nested construct delimiters", len(brk)), false, true, "")
+		c.ParRange(p, int64(len(brk)), func(w *Worker, i int64) { w.Judge(ev.Case{Kind: "term", N: k, In: brk[i]}) })
+	}
 	// words the tokenizer's own source compares the input with (source dictionary) inside every construct
 	dw := dictWords(srcDict().HTML)
 	for k, hc := range h5Constructs {
